@@ -810,8 +810,30 @@ def m_unwrap_or_else(eng, call, args):
 # ---------------------------------------------------------------------------------------------------------
 # iterators (collections are summarised: an iterator is iter(src); its elements are elem(src))
 # ---------------------------------------------------------------------------------------------------------
+def trivial_phi_value(t, _stack=frozenset()):
+    """phi(X, self) = X, also through cycles of such joins (an iterator or collection that a loop body hands back
+    unchanged is its entry value on every iteration); t itself when the join merges different values"""
+    if not is_t(t) or t.op != "phi":
+        return t
+    if t.id in _stack:
+        return t
+    vals = set()
+    out = None
+    for v in (PHI.get(t.args[0]) or {}).values():
+        r = trivial_phi_value(v, _stack | {t.id}) if is_t(v) and v.op == "phi" else v
+        if r is t or (is_t(r) and r.id in _stack):
+            continue
+        if is_t(r):
+            if r.id not in vals:
+                vals.add(r.id)
+                out = r
+    return out if len(vals) == 1 else t
+
+
 def elem_of(eng, call, it):
     """abstract element yielded by iterator value `it`"""
+    if it.op == "phi":
+        it = trivial_phi_value(it)
     op = it.op
     if op == "iter":
         src, byref = it.args[0], it.args[1]
